@@ -882,6 +882,47 @@ func genC18(tier string, rng *Rng) {
 		H := []int{16, 24, 31, 32, 48}[rng.Intn(5)]
 		barFamily(rng, s, geo{W, H, rng.Intn(4), rng.Intn(4)})
 	}
+	// (4a) centred formats 10/11 whose text fits the active area EXACTLY (and with one column to spare /
+	// one too many): the tile width is derived from the width the implementation reports for the text in
+	// that font and size (seed C18-8: the last glyph of an exactly fitting line dropped)
+	{
+		texts := []string{"AUX OUTPUT 1", "PROGRAM OUT", "ABC", "AB", "Hi!", "il1.", "Wide WM", "x"}
+		ne := 0
+		for _, txt := range texts {
+			for face := 0; face < 3; face++ {
+				for _, sz := range [][2]uint32{{1, 1}, {2, 2}, {2, 1}, {3, 3}} {
+					if !thorough && !search && (ne+face+int(sz[0]))%3 != 0 {
+						ne++
+						continue
+					}
+					ne++
+					m := &mono.MonoImg{}
+					m.NewImage(8, 8)
+					m.SetFont(face, true)
+					m.SetTextSize(int(sz[0]), int(sz[1]))
+					sw := m.StrWidth(txt)
+					lh := int(m.LineHeight())
+					for _, fm := range []int32{10, 11} {
+						var st tst
+						st.fmt = fm
+						st.ti, st.l1, st.l2 = txt, txt, pickS(rng, texts[:4])
+						st.style = &tstyle{}
+						st.tfont = &tfont{face: int32(face), h: sz[1], w: sz[0]}
+						for _, g := range []geo{{0, 0, 0, 0}, {0, 0, 1, 0}, {0, 0, 0, 1}, {0, 0, 3, 2}} {
+							for _, d := range []int{0, 1, -1, 2} {
+								W := sw + 2*g.border + (g.shrink & 1) + d
+								H := 2*lh + 2*g.border + (g.shrink >> 1) + 2
+								if W < 1 || W > 300 || H > 80 {
+									continue
+								}
+								runTile(st, W, H, g.shrink, g.border)
+							}
+						}
+					}
+				}
+			}
+		}
+	}
 	// (4b) centred formats 10/11 with multi-byte UTF-8 (2-, 3-, 4-byte sequences), invalid and truncated
 	// sequences, on tiles wide enough for the text to fit: the width must be measured in runes
 	nu := 400
